@@ -912,6 +912,16 @@ VF_PART(history)
 
 // =========================================================================================================
 // gibbs_bounds
+// Gibbs iteration schedules (nburn, niter).  The sweeps are iter = 0..niter-1 and the bounds are relaxed ("decay") while
+// iter < nburn, exact from iter == nburn on: the final values are drawn inside the true intervals iff niter >= nburn + 1.
+// The menu has the schedule used so far, exactly ONE sweep after the burn-in (niter == nburn + 1) for several nburn, no
+// burn-in at all, and the library defaults; niter == nburn (the run never leaves the burn-in, accepted silently by the
+// library) is enumerated but not judged: the property cannot hold for a schedule that never applies the true bounds.
+struct Sched { int nburn, niter; };
+static const Sched gsched[8] = {{5, 15}, {4, 5}, {10, 11}, {1, 2}, {0, 1}, {0, 3}, {10, 100}, {3, 3}};
+static const int NSCHED = 8;
+static bool sched_never_exact(const Sched& s) { return s.niter <= s.nburn; }
+
 struct GB { double lo, up; };
 static const GB gbmenu[6] = {{TEST, TEST}, {TEST, -0.5}, {0.75, TEST}, {-0.25, 0.25}, {2.5, 3.5}, {1., 1.0001}};
 
@@ -919,10 +929,13 @@ VF_PART(gibbs_bounds)
 {
   defineDefaultSpace(ESpaceType::RN, 2);
   Space sp;
-  sp.axis("b0", 6).axis("b1", 6).axis("b2", 6).axis("b3", 6).axis("model", 2).axis("flags", 4).axis("nvar", 2).axis("nbsimu", 2).axis("seed", 2);
+  sp.axis("b0", 6).axis("b1", 6).axis("b2", 6).axis("b3", 6).axis("model", 2).axis("flags", 4).axis("nvar", 2).axis("nbsimu", 2).axis("seed", 2).axis("schedule", NSCHED);
   const int seeds[2] = {4321, 20000158};
   for_each_case(C, sp, [&](uint64_t id, const std::vector<int>& ix) {
     if (!C.thorough() && (ix[3] >= 3 || ix[8] >= 1)) return;
+    // quick: the other schedules on half of the bounds menu of the third sample; the long default schedule on a quarter
+    if (!C.thorough() && ix[9] > 0 && (ix[2] % 2 == 1 || (gsched[ix[9]].niter >= 100 && ix[1] % 2 == 1))) return;
+    const Sched SC = gsched[ix[9]];
     int nvar = ix[6] + 1, nbsimu = ix[7] + 1, seed = seeds[ix[8]];
     bool moving = ix[5] & 1, mm = ix[5] & 2;
     if (mm && nvar > 1) { C.skip(); return; }  // multi-mono is a monovariate (multi-GRF) sampler
@@ -940,10 +953,10 @@ VF_PART(gibbs_bounds)
     Db* db = nvar == 1 ? make_db({x, y, lo1, up1}, {"x1", "x2", "lo1", "up1"}, {"x1", "x2", "lower1", "upper1"})
                        : make_db({x, y, lo1, lo2, up1, up2}, {"x1", "x2", "lo1", "lo2", "up1", "up2"}, {"x1", "x2", "lower1", "lower2", "upper1", "upper2"});
     int n0 = db->getColumnNumber();
-    int err = gibbs_sampler(db, m, nbsimu, seed, 5, 15, moving, false, mm, false, true, 0, 5., false, false, false);
+    int err = gibbs_sampler(db, m, nbsimu, seed, SC.nburn, SC.niter, moving, false, mm, false, true, 0, 5., false, false, false);
     C.eval();
     std::string kase = std::to_string(id);
-    std::string desc = "gibbs_sampler nvar=" + std::to_string(nvar) + " nbsimu=" + std::to_string(nbsimu) + " moving=" + std::to_string(moving) + " multi_mono=" + std::to_string(mm) + " model " + std::to_string(ix[4]) + " seed=" + std::to_string(seed) +
+    std::string desc = "gibbs_sampler nburn=" + std::to_string(SC.nburn) + " niter=" + std::to_string(SC.niter) + " nvar=" + std::to_string(nvar) + " nbsimu=" + std::to_string(nbsimu) + " moving=" + std::to_string(moving) + " multi_mono=" + std::to_string(mm) + " model " + std::to_string(ix[4]) + " seed=" + std::to_string(seed) +
                        " bounds menu indices [" + std::to_string(ix[0]) + "," + std::to_string(ix[1]) + "," + std::to_string(ix[2]) + "," + std::to_string(ix[3]) + "]";
     std::vector<std::vector<double>> R = result_cols(db, n0);
     std::vector<std::string> names;
@@ -974,8 +987,16 @@ VF_PART(gibbs_bounds)
             if (first.empty()) first = "column " + names[is + nbsimu * iv] + " (variable " + std::to_string(iv + 1) + ", simulation " + std::to_string(is + 1) + ") sample " + std::to_string(i) + " = " + fmt(v) + " outside [" + bstr(lo) + "," + bstr(up) + "]";
           }
         }
-    C.outcome(nbad ? "outside-bounds" : "all-within-bounds");
-    if (nbad) C.violation((nvar >= 2 && nbsimu >= 2) ? "gibbs:bounds:nvar>=2:nbsimu>=2" : "gibbs:bounds", desc + ": " + first + " (" + std::to_string(nbad) + " values)", kase);
+    std::string sname = "(" + std::to_string(SC.nburn) + "," + std::to_string(SC.niter) + ")";
+    if (sched_never_exact(SC))
+    {
+      C.skip();
+      C.outcome("schedule" + sname + ":never-leaves-burn-in(not judged):" + (nbad ? "outside-bounds" : "within-bounds"));
+      return;
+    }
+    C.outcome("schedule" + sname + (nbad ? ":outside-bounds" : ":all-within-bounds"));
+    // nburn == 0 is its own mechanism (the relaxation ratio iter/nburn is 0/0 in the only sweep that applies it)
+    if (nbad) C.violation(SC.nburn == 0 ? "gibbs:bounds:nburn=0" : (nvar >= 2 && nbsimu >= 2) ? "gibbs:bounds:nvar>=2:nbsimu>=2" : "gibbs:bounds", desc + ": " + first + " (" + std::to_string(nbad) + " values)", kase);
     if (id % 2003 == 0) C.sample("{\"id\":" + kase + ",\"axes\":" + sp.describe(ix) + ",\"values_outside\":" + std::to_string(nbad) + "}");
   });
 }
@@ -986,10 +1007,12 @@ VF_PART(pgs_facies)
 {
   defineDefaultSpace(ESpaceType::RN, 2);
   Space sp;
-  sp.axis("f0", 3).axis("f1", 3).axis("f2", 3).axis("f3", 3).axis("rule", 3).axis("nbsimu", 3).axis("seed", 2).axis("target", 2);
+  sp.axis("f0", 3).axis("f1", 3).axis("f2", 3).axis("f3", 3).axis("rule", 3).axis("nbsimu", 3).axis("seed", 2).axis("target", 2).axis("schedule", NSCHED);
   const int seeds[2] = {777, 20000158};
   for_each_case(C, sp, [&](uint64_t id, const std::vector<int>& ix) {
     if (!C.thorough() && ix[6] >= 1) return;
+    if (!C.thorough() && ix[8] > 0 && (ix[3] != 1 || (gsched[ix[8]].niter >= 100 && ix[2] != 0))) return;  // quick: other schedules on a third (a ninth) of the facies vectors
+    const Sched SC = gsched[ix[8]];
     int nbsimu = ix[5] + 1, seed = seeds[ix[6]];
     bool pt = ix[7] == 1;
     Model* m1 = Model::createFromParam(ECov::EXPONENTIAL, 4., 1.);
@@ -1006,7 +1029,7 @@ VF_PART(pgs_facies)
     if (!pt) out = DbGrid::create({4, 4});
     else { point_targets(tx, ty); out = make_db({tx, ty}, {"x1", "x2"}, {"x1", "x2"}); }
     int n0 = out->getColumnNumber();
-    int err = simpgs(din, out, rp, m1, m2, nu, nbsimu, seed, false, false, false, false, 10, 5, 20);
+    int err = simpgs(din, out, rp, m1, m2, nu, nbsimu, seed, false, false, false, false, 10, ix[8] == 0 ? 5 : SC.nburn, ix[8] == 0 ? 20 : SC.niter);
     C.eval();
     std::vector<std::vector<double>> R = result_cols(out, n0);
     std::vector<double> ox, oy;
@@ -1038,10 +1061,18 @@ VF_PART(pgs_facies)
     // facies values must be valid everywhere
     for (auto& c : R) for (double v : c) if (!(v == 1 || v == 2 || v == 3)) { C.violation("pgs:invalid-facies", desc + ": simulated facies value " + fmt(v), kase); goto inv_done; }
   inv_done:
-    C.outcome(std::string(pt ? "point" : "grid") + ":ngrf=" + std::to_string(ngrf) + ":nbsimu=" + std::to_string(nbsimu) + (nbad ? ":facies-NOT-honoured" : ":facies-honoured"));
+    int pnb = ix[8] == 0 ? 5 : SC.nburn, pni = ix[8] == 0 ? 20 : SC.niter;
+    desc += ", gibbs_nburn=" + std::to_string(pnb) + ", gibbs_niter=" + std::to_string(pni);
+    if (pni <= pnb)
+    {
+      C.skip();
+      C.outcome(std::string("schedule(") + std::to_string(pnb) + "," + std::to_string(pni) + "):never-leaves-burn-in(not judged):" + (nbad ? "facies-not-honoured" : "facies-honoured"));
+      return;
+    }
+    C.outcome(std::string(pt ? "point" : "grid") + ":ngrf=" + std::to_string(ngrf) + ":nbsimu=" + std::to_string(nbsimu) + (ix[8] ? ":other-schedule" : "") + (nbad ? ":facies-NOT-honoured" : ":facies-honoured"));
     if (nbad)
     {
-      std::string key = pt ? "pgs:facies-at-data:point-target" : (ngrf >= 2 && nbsimu >= 2) ? "pgs:facies-at-data:ngrf>=2:nbsimu>=2" : "pgs:facies-at-data";
+      std::string key = pnb == 0 ? "pgs:facies-at-data:nburn=0" : pt ? "pgs:facies-at-data:point-target" : (ngrf >= 2 && nbsimu >= 2) ? "pgs:facies-at-data:ngrf>=2:nbsimu>=2" : "pgs:facies-at-data";
       C.violation(key, desc + ": " + first + " (" + std::to_string(nbad) + " mismatches)", kase);
     }
     if (id % 499 == 0) C.sample("{\"id\":" + kase + ",\"axes\":" + sp.describe(ix) + ",\"mismatches\":" + std::to_string(nbad) + "}");
